@@ -53,7 +53,8 @@ def structure(draw, ground=False, max_wires=4, max_seg=10, min_seg=1, seg_lo=1 /
     def seglen():
         if same_seg:
             return s0
-        f = draw(st.sampled_from([1.0, 1.0, 0.5, 0.7, 1.5, 2.0]))
+        # adjacent segments may differ by at most a factor 2 (README, 'The Other Edge of The Sword')
+        f = draw(st.sampled_from([1.0, 1.0, 0.75, 0.8, 1.25, 1.5]))
         return min(max(s0 * f, seg_lo), seg_hi)
 
     def radius(sl):
